@@ -110,17 +110,17 @@ def run(chk: Check):
                 export_and_judge(chk, key, lambda w: write_image(w, aw.build_image(naming.akai_files_case(names), seed)),
                                  [o + ".wav" for o in outs], "A/VOL/", label, payload)
             elif label == "akai volumes":
-                export_and_judge(chk, key, lambda w: write_image(w, aw.build_image(naming.akai_dirs_case(names), seed)),
-                                 [f"{o}/S{j}.wav" for j, o in enumerate(outs)], "A/", label, payload)
+                export_and_judge(chk, key, lambda w: write_image(w, aw.build_image(naming.akai_dirs_case(names, same_child=True), seed)),
+                                 [f"{o}/S0.wav" for j, o in enumerate(outs)], "A/", label, payload)
             elif label == "roland samples":
                 export_and_judge(chk, key, lambda w: write_image(w, rw.build_image(naming.roland_files_case(names), seed)),
                                  [o + ".wav" for o in outs], "Vol/Perf/", label, payload)
             elif label == "roland volumes":
-                export_and_judge(chk, key, lambda w: write_image(w, rw.build_image(naming.roland_dirs_case(names, "volume"), seed)),
-                                 [f"{o}/P{j}/Smp{j}.wav" for j, o in enumerate(outs)], "", label, payload)
+                export_and_judge(chk, key, lambda w: write_image(w, rw.build_image(naming.roland_dirs_case(names, "volume", same_child=True), seed)),
+                                 [f"{o}/P/Smp.wav" for j, o in enumerate(outs)], "", label, payload)
             elif label == "roland performances":
-                export_and_judge(chk, key, lambda w: write_image(w, rw.build_image(naming.roland_dirs_case(names, "performance"), seed)),
-                                 [f"{o}/Smp{j}.wav" for j, o in enumerate(outs)], "Vol/", label, payload)
+                export_and_judge(chk, key, lambda w: write_image(w, rw.build_image(naming.roland_dirs_case(names, "performance", same_child=True), seed)),
+                                 [f"{o}/Smp.wav" for j, o in enumerate(outs)], "Vol/", label, payload)
             else:
                 lines, binlen = naming.cue_lines(names)
 
@@ -147,13 +147,13 @@ def replay(chk: Check, path: str):
             if label == "akai files":
                 export_and_judge(chk, ("r",), lambda w: write_image(w, aw.build_image(naming.akai_files_case(names), seed)), [o + ".wav" for o in outs], "A/VOL/", label, payload)
             elif label == "akai volumes":
-                export_and_judge(chk, ("r",), lambda w: write_image(w, aw.build_image(naming.akai_dirs_case(names), seed)), [f"{o}/S{j}.wav" for j, o in enumerate(outs)], "A/", label, payload)
+                export_and_judge(chk, ("r",), lambda w: write_image(w, aw.build_image(naming.akai_dirs_case(names, same_child=True), seed)), [f"{o}/S0.wav" for j, o in enumerate(outs)], "A/", label, payload)
             elif label == "roland samples":
                 export_and_judge(chk, ("r",), lambda w: write_image(w, rw.build_image(naming.roland_files_case(names), seed)), [o + ".wav" for o in outs], "Vol/Perf/", label, payload)
             elif label == "roland volumes":
-                export_and_judge(chk, ("r",), lambda w: write_image(w, rw.build_image(naming.roland_dirs_case(names, "volume"), seed)), [f"{o}/P{j}/Smp{j}.wav" for j, o in enumerate(outs)], "", label, payload)
+                export_and_judge(chk, ("r",), lambda w: write_image(w, rw.build_image(naming.roland_dirs_case(names, "volume", same_child=True), seed)), [f"{o}/P/Smp.wav" for j, o in enumerate(outs)], "", label, payload)
             elif label == "roland performances":
-                export_and_judge(chk, ("r",), lambda w: write_image(w, rw.build_image(naming.roland_dirs_case(names, "performance"), seed)), [f"{o}/Smp{j}.wav" for j, o in enumerate(outs)], "Vol/", label, payload)
+                export_and_judge(chk, ("r",), lambda w: write_image(w, rw.build_image(naming.roland_dirs_case(names, "performance", same_child=True), seed)), [f"{o}/Smp.wav" for j, o in enumerate(outs)], "Vol/", label, payload)
             else:
                 lines, binlen = naming.cue_lines(names)
                 export_and_judge(chk, ("r",), lambda w: cue.write_pair(w, cue.render(lines, 0, seed), binlen, seed)[0], [o + ".wav" for o in outs], "", label, payload)
